@@ -7,7 +7,7 @@ is symbolic.  Each program logs through the host function log(...) and ends with
 """
 
 LOOPS = ("while", "dowhile", "for", "forin", "forof")
-EXITS = ("none", "break", "continue", "return", "breakL", "continueL")
+EXITS = ("none", "break", "continue", "return", "returnB", "breakL", "continueL")
 
 
 def loop(kind, var, bound, body, label=None):
@@ -33,7 +33,7 @@ def loop(kind, var, bound, body, label=None):
 
 
 def exit_stmt(kind, label="outer"):
-    return {"none": "log('x', @);", "break": "break;", "continue": "continue;", "return": "return @ * 10 + 7;",
+    return {"none": "log('x', @);", "break": "break;", "continue": "continue;", "return": "return @ * 10 + 7;", "returnB": "return;",
             "breakL": "break %s;" % label, "continueL": "continue %s;" % label}[kind]
 
 
@@ -51,12 +51,12 @@ def programs():
     out = []
     # 1. single loop x exit
     for lk in LOOPS:
-        for ek in ("none", "break", "continue", "return"):
+        for ek in ("none", "break", "continue", "return", "returnB"):
             out.append(("loop.%s.%s" % (lk, ek), wrap_main(loop(lk, "i", "N", body_with_exit(ek)))))
     # 2. nested loops: inner exit with and without label, every inner/outer kind pairing of for/while + for-in/of
     for ok in ("for", "while", "dowhile", "forof", "forin"):
         for ik in LOOPS:
-            for ek in ("break", "continue", "breakL", "continueL", "return"):
+            for ek in ("break", "continue", "breakL", "continueL", "return", "returnB"):
                 if ok in ("dowhile", "forin", "forof") and ik not in ("for", "forin") :
                     continue
                 inner = loop(ik, "j", "N", "log('in', i, @); if (@ === C0 && i === C1) { log('e', i, @); %s } log('ib', @);"
@@ -96,7 +96,7 @@ def programs():
             "arg": "R = g(1, f(@), 3); log('r', R);", "key": "R = T[f(@) % 3]; log('r', R);",
             "elem": "R = [1, f(@), 3]; log('r', R[0], R[1], R[2]);", "nested": "R = g(@, g(2, f(@), 4), 5); log('r', R);"}
     for lk in LOOPS:
-        for ek in ("break", "continue", "return"):
+        for ek in ("break", "continue", "return", "returnB"):
             fbody = loop(lk, "q", "N", "if (q === C0) { %s } log('f', p, q);" % exit_stmt(ek).replace("@", "q"))
             for cname, ctx in ctxs.items():
                 if cname not in ("left", "arg", "stmt") and lk in ("while", "dowhile"):
@@ -107,6 +107,13 @@ def programs():
                        "function main() { %s return 'end'; } R = main(); log('R', R); R;") % (
                     fbody, loop("for", "i", "2", ctx))
                 out.append(("call.%s.%s.%s" % (lk, ek, cname), src))
+    for cname, ctx in ctxs.items():
+        src = ("var R = 0; var i, j, o; var T = [10, 20, 30]; function probe() { return pr(); } "
+               "function g(a, b, c) { return a * 100 + b * 10 + c; } "
+               "function f(p) { switch (p + C0) { case 0: log('s0'); return; case 1: log('s1'); return p + 1; "
+               "case 2: log('s2'); break; default: log('sd'); } return p + 2; } "
+               "function main() { %s return 'end'; } R = main(); log('R', R); R;") % loop("for", "i", "3", ctx)
+        out.append(("call.switch-return.%s" % cname, src))
     # 6. operand order
     out.append(("order.binary", wrap_main("R = (log('l'), 1) + (log('r'), 2) - (log('m'), C0); log('v', R);")))
     out.append(("order.call", wrap_main("function h(a, b, c) { return a + b + c; } R = h((log(1), C0), (log(2), C1), (log(3), C2)); log('v', R);")))
@@ -146,6 +153,32 @@ def closure_programs():
     out.append(("closure.sibling-vars", pre + "function mk() { var p = 1, q = 2, r = 3, s = C0; "
                 "function f1() { q = q + s; return q; } function f2() { r = r + p; return r; } function f3() { return p + q + r + s; } "
                 "return [f1, f2, f3]; } var t = mk(); var a = t[0], b = t[1], d = t[2]; " + calls(["a", "b", "d"]) + post))
+    out.append(("closure.passthrough-shared", pre + "function l1() { var x = C0; function mid() { return function() { x = x + 1; return x; }; } "
+                "var i1 = mid(); var i2 = mid(); return [i1, i2, function() { return x; }, function() { x = x + 10; return x; }]; } "
+                "var t = l1(); var a = t[0], b = t[1], d = t[2], e = t[3]; " + calls(["a", "b", "d", "e"]) + post))
+    out.append(("closure.owner-writes-after", pre + "function l1() { var x = 1; function mid() { return function() { return x; }; } var g = mid(); "
+                "x = C0 + 5; var h = mid(); x = x + 1; return [g, h, function() { x = x + 1; return x; }]; } "
+                "var t = l1(); var a = t[0], b = t[1], d = t[2]; " + calls(["a", "b", "d"]) + post))
+    out.append(("closure.nested-callback-accumulate", pre + "function sum() { var tot = C0; [1, 2].forEach(function(p) { [10, 20].forEach(function(q) { tot = tot + p + q; }); }); return tot; } "
+                "function sum2() { var tot = 0; var add = function(v) { return function() { tot = tot + v; return tot; }; }; var x1 = add(1), x5 = add(5); x1(); x5(); x1(); return tot + C1; } "
+                "var a = sum, b = sum2; " + calls(["a", "b"]) + post))
+    out.append(("closure.param-passthrough", pre + "function l1(p) { function mid() { return function() { p = p + 1; return p; }; } var i1 = mid(); "
+                "return [i1, function() { return p; }]; } var t = l1(C0); var a = t[0], b = t[1]; " + calls(["a", "b"]) + post))
+    out.append(("closure.three-level-read-write", pre + "function l1() { var x = 0, y = 100; function m1() { function m2() { return function() { x = x + 1; y = y - 1; return x + y; }; } return m2(); } "
+                "var w = m1(); return [w, function() { return x; }, function() { return y; }, function() { x = x + C0; return x; }]; } "
+                "var t = l1(); var a = t[0], b = t[1], d = t[2], e = t[3]; " + calls(["a", "b", "d", "e"]) + post))
+    out.append(("closure.forin-var", pre + "function mk() { var fs = []; for (var k in {a: 1, b: 2, c: 3}) { fs.push(function() { return k; }); } "
+                "var gs = []; for (var v of [C0, 5, 6]) { gs.push(function() { v = v + 1; return v; }); } return [fs[0], fs[2], gs[0], gs[1]]; } "
+                "var t = mk(); var a = t[0], b = t[1], d = t[2], e = t[3]; " + calls(["a", "b", "d", "e"]) + post))
+    out.append(("closure.outer-loop-var", pre + "function mk() { var k = 'none'; var seen = []; function run() { for (k of [C0, C1]) { seen.push(k); } return seen.length; } "
+                "return [run, function() { return k; }]; } var t = mk(); var a = t[0], b = t[1]; " + calls(["a", "b"]) + post))
+    out.append(("closure.typeof-captured", pre + "function mk() { var x = C0; var u; var g = function() { return typeof x + '/' + typeof u + '/' + typeof zzz_undeclared; }; "
+                "return [function() { return typeof x; }, g, function() { u = 'now'; return typeof u; }, function() { return typeof mk + typeof g; }]; } "
+                "function own() { var x = 1; var h = function() { return x; }; return typeof x + '/' + typeof h; } "
+                "var t = mk(); var a = t[0], b = t[1], d = t[2], e = own; " + calls(["a", "b", "d", "e"]) + post))
+    out.append(("closure.redeclare", pre + "function mk() { var x = C0; var x; var r = []; for (var i = 0; i < 3; i++) { var v; if (i === C1) { v = 'set' + i; } r.push(v); } "
+                "return [function() { return x; }, function() { return r.join(','); }]; } var g1 = 5; var g1; "
+                "var t = mk(); var a = t[0], b = t[1], d = function() { return g1; }; " + calls(["a", "b", "d"]) + post))
     out.append(("closure.recursion", pre + "function fib(n) { return n < 2 ? n : fib(n - 1) + fib(n - 2); } "
                 "function ev(n) { return n === 0 ? 1 : od(n - 1); } function od(n) { return n === 0 ? 0 : ev(n - 1); } "
                 "var a = function() { return fib(C0 + 2); }; var b = function() { return ev(C1); }; " + calls(["a", "b"]) + post))
